@@ -338,7 +338,7 @@ func (m *collection) ExecuteBatch(bIn Batch,
 	m.m.Lock()
 
 	for m.stackDirtyTop != nil &&
-		len(m.stackDirtyTop.a) >= maxPreMergerBatches {
+		m.stackDirtyTop.height() >= maxPreMergerBatches {
 		if m.isClosed() {
 			m.m.Unlock()
 			return ErrClosed
